@@ -5,7 +5,7 @@
 //! projected state before and after (also on failure) — the format of specs/MarketProps.tla.
 //!
 //! modes:
-//!   replay --in transitions.ndjson --cfgs cfgs.json --out trace.ndjson
+//!   replay --in transitions.ndjson --cfgs cfgs.json [--dec 1|2] --out trace.ndjson
 //!       every line of `--in` is a transition printed by TLC (MC_Market): {from, ci, pr, op, side, a, b};
 //!       inject `from`, apply the operation, log.  A successful deposit that minted something is
 //!       followed by the immediate withdrawal of exactly the minted amount at the same prices
@@ -308,7 +308,7 @@ fn apply_with_round_trip<const D: u8>(
     }
 }
 
-fn replay(args: &Args) -> i32 {
+fn replay_d<const D: u8>(args: &Args) -> i32 {
     let cfgs: Vec<Value> =
         serde_json::from_reader(std::fs::File::open(args.str("cfgs", "cfgs.json")).expect("open cfgs")).expect("parse cfgs");
     let mut sink = Sink::create(&args.str("out", "c04-replay.ndjson"));
@@ -320,7 +320,7 @@ fn replay(args: &Args) -> i32 {
         }
         let t: Value = serde_json::from_str(&line).expect("transition json");
         let c = &cfgs[gi(&t, "ci") as usize - 1];
-        let mut m = new_market::<1>(c);
+        let mut m = new_market::<D>(c);
         inject(&mut m, &t["from"]);
         let op = t["op"].as_str().unwrap().to_string();
         apply_with_round_trip(&mut sink, &mut m, c, &t["pr"], &op, gb(&t, "side"), gi(&t, "a"), gi(&t, "b"), true);
@@ -329,13 +329,22 @@ fn replay(args: &Args) -> i32 {
     0
 }
 
+fn replay(args: &Args) -> i32 {
+    if args.num("dec", 1) == 2 {
+        replay_d::<2>(args)
+    } else {
+        replay_d::<1>(args)
+    }
+}
+
 fn pj(min: u64, max: u64) -> Value {
     json!({"min": min, "max": max})
 }
 
 /// random price with a spread; `scale` = Unit / 10 so that D = 2 uses 100-based prices
 fn rnd_price(rng: &mut Rng, scale: u64) -> Value {
-    let base = *rng.pick(&[5u64, 9, 10, 10, 12, 20, 24]);
+    // D = 2 keeps prices lower so that every product of the trace validation fits 32 bits
+    let base = if scale > 1 { *rng.pick(&[5u64, 9, 10, 10, 12]) } else { *rng.pick(&[5u64, 9, 10, 10, 12, 20, 24]) };
     let spread = *rng.pick(&[0u64, 0, 1, 2, 3]);
     pj(base * scale, (base + spread) * scale)
 }
@@ -371,11 +380,13 @@ fn random_run<const D: u8>(rng: &mut Rng, sink: &mut Sink) {
         // open positions are always backed by some liquidity of their side (reserve validation of
         // every operation that removes liquidity)
         let lo = if with_pos { 5 } else { 0 };
-        let liq = (lo + amt(rng, 60 - lo), lo + amt(rng, 60 - lo));
+        let hi = if D == 1 { 60 } else { 30 };
+        let liq = (lo + amt(rng, hi - lo), lo + amt(rng, hi - lo));
         let imp_hi = *rng.pick(&[0u64, 1, 3, 8]);
         let supply = if rng.chance(1, 12) { 0 } else { (liq.0 + liq.1) * 10 * scale / gi(&c, "div") + rng.below(40) };
-        let oi_l = if with_pos { rng.below(25) * 10 * scale } else { 0 };
-        let oi_s = if with_pos { rng.below(25) * 10 * scale } else { 0 };
+        let oi_hi = if D == 1 { 25 } else { 12 };
+        let oi_l = if with_pos { rng.below(oi_hi) * 10 * scale } else { 0 };
+        let oi_s = if with_pos { rng.below(oi_hi) * 10 * scale } else { 0 };
         let oit_l = if oi_l > 0 { (oi_l / (10 * scale)).saturating_sub(rng.below(3)) + rng.below(3) } else { 0 };
         let oit_s = if oi_s > 0 { (oi_s / (10 * scale)).saturating_sub(rng.below(3)) + rng.below(3) } else { 0 };
         let bc = (unit + rng.below(unit / 2 + 1), unit + rng.below(unit / 2 + 1));
@@ -405,9 +416,12 @@ fn random_run<const D: u8>(rng: &mut Rng, sink: &mut Sink) {
             let lp = rnd_price(rng, scale);
             prv = json!({"idx": if rng.chance(2, 3) { lp.clone() } else { rnd_price(rng, scale) }, "long": lp, "short": rnd_price(rng, scale)});
         }
-        let amount = |rng: &mut Rng| *rng.pick(&[0u64, 1, 1, 2, 3, 5, 8, 10, 13, 20, 25, 33, 40]);
+        let amount = |rng: &mut Rng| {
+            if D == 1 { *rng.pick(&[0u64, 1, 1, 2, 3, 5, 8, 10, 13, 20, 25, 33, 40]) } else { *rng.pick(&[0u64, 1, 1, 2, 3, 5, 8, 10, 13, 20]) }
+        };
         // keep every pool small enough for 32-bit products in the trace validation
-        if m.primary.long_amount > 160 || m.primary.short_amount > 160 || m.total_supply > 30_000 * scale {
+        let (pool_max, supply_max) = if D == 1 { (160, 30_000) } else { (45, 15_000) };
+        if m.primary.long_amount > pool_max || m.primary.short_amount > pool_max || m.total_supply > supply_max {
             break;
         }
         match rng.below(10) {
